@@ -213,6 +213,9 @@ func (s *sm) log(kind byte, format string, args ...any) {
 
 func (s *sm) failf(format string, args ...any) {
 	s.t.Helper()
+	if strings.HasPrefix(format, "LOST WAKE-UP") || strings.HasPrefix(format, "deadlock") || strings.Contains(format, "%v; message %s") {
+		hangSeen.Store(true)
+	}
 	var box []string
 	for k, b := range s.slots {
 		for from, p := range b {
@@ -974,7 +977,7 @@ func (s *sm) finish() {
 
 func TestRouterStateMachine(t *testing.T) {
 	const test = "RouterStateMachine"
-	bd := bound()
+	bound()
 	if err := flag.Set("rapid.steps", "40"); err != nil {
 		t.Fatal(err)
 	}
@@ -982,6 +985,7 @@ func TestRouterStateMachine(t *testing.T) {
 	vlib.Check(t, 6000, func(t *rapid.T) {
 		n := rapid.IntRange(2, 5).Draw(t, "n")
 		idx := rapid.SliceOfNDistinct(rapid.IntRange(0, len(idPool)-1), n, n, rapid.ID[int]).Draw(t, "members")
+		bd := waitBound()
 		s := &sm{t: t, memberSet: map[sharing.ID]bool{}, bound: bd,
 			slots: map[string]map[sharing.ID][]byte{}, poison: map[string][]sharing.ID{}, doneKeys: map[string]bool{},
 			sentBy: map[string]map[sharing.ID]bool{}, wireOf: map[string]string{}, keyOf: map[string]string{}, peers: map[sharing.ID]*peerEnd{}}
